@@ -44,10 +44,13 @@ CONSTANTS MaxLen, EMIT,
           Kind,        \* "lists" | "objects" (diffs computed by the transcribed differ) |
                        \* "nested" (lists of small objects; EVERY pair of well-formed diffs of the base, patch entries included)
           NIns,        \* nested: number of insertion choices per gap (2: none / one item; 3: two different items)
-          NPatch       \* nested: "few" (two replacing patches per item) | "all" (remove / replace / add per key)
+          NPatch,      \* nested: "few" (two replacing patches per item) | "all" (remove / replace / add per key)
+          StratMode    \* "none" (no strategies, no transients) | "few" | "all": the strategy configurations of StratU
 
-VARIABLES base, local, remote, ldv, rdv, D, merged, phase
-vars == <<base, local, remote, ldv, rdv, D, merged, phase>>
+VARIABLES base, local, remote, ldv, rdv, D, merged, phase,
+          st           \* the strategy configuration: [l: strategy on "/", i: on "/*", k: on the keys of an object,
+                       \*                              t: set of transient keys]
+vars == <<base, local, remote, ldv, rdv, D, merged, phase, st>>
 
 Atoms == {Int("1"), Int("2"), Str(<<120>>)}
 RECURSIVE SeqsUpTo(_, _)
@@ -141,11 +144,31 @@ TypeName(d) ==      \* "", "A", "R", "AR" (also "P"... not for atoms)
 Dec(action, conflict, ld, lnull, rd, rnull) ==
   [common_path |-> <<>>, path_ok |-> TRUE, conflict |-> conflict, conflict_ok |-> TRUE, action |-> action,
    local_diff |-> ld, local_null |-> lnull, remote_diff |-> rd, remote_null |-> rnull,
-   custom_diff |-> <<>>, custom_null |-> TRUE, similar |-> <<>>, similar_null |-> TRUE, extra |-> <<>>]
+   custom_diff |-> <<>>, custom_null |-> TRUE, similar |-> <<>>, similar_null |-> TRUE, extra |-> <<>>,
+   strat |-> ""]          \* the builder's internal "strategy" field (removed by validated())
 
 OneSided(d0, d1)  == IF Len(d0) > 0 THEN Dec("local", FALSE, d0, FALSE, d1, FALSE) ELSE Dec("remote", FALSE, d0, FALSE, d1, FALSE)
 Agreement(d0, d1) == Dec("either", FALSE, d0, FALSE, d1, FALSE)
 Conflict(d0, d1)  == Dec("base", TRUE, d0, FALSE, d1, FALSE)
+
+(***************************************************************************)
+(* strategies (utils.Strategies, MergeDecisionBuilder.tryresolve/conflict, *)
+(* strategies.resolve_strategy_generic / resolve_conflicted_decisions_..)  *)
+(***************************************************************************)
+NoStrat == [l |-> "", i |-> "", k |-> "", t |-> {}]
+UseS == {"use-base", "use-local", "use-remote"}
+SideOf(s) == CASE s = "use-base" -> "base" [] s = "use-local" -> "local" [] OTHER -> "remote"
+\* tryresolve: the action a leaf strategy stands for ("" = not resolvable here: remove, mergetool, inline-*, ...)
+TryAction(s) == CASE s \in UseS -> SideOf(s)
+                  [] s = "union" -> "local_then_remote"
+                  [] s = "clear" -> "clear"
+                  [] s = "take-max" -> "take_max"
+                  [] OTHER -> ""
+Resolved(a, d0, d1, s) == [Dec(a, FALSE, d0, FALSE, d1, FALSE) EXCEPT !.strat = s]
+\* MergeDecisionBuilder.conflict(path, ld, rd, strategy)
+ConflictS(d0, d1, s) == IF TryAction(s) = "" THEN Conflict(d0, d1) ELSE Resolved(TryAction(s), d0, d1, s)
+SwapStrat(s) == CASE s = "use-local" -> "use-remote" [] s = "use-remote" -> "use-local" [] OTHER -> s
+SwapS(s) == [s EXCEPT !.l = SwapStrat(@), !.i = SwapStrat(@), !.k = SwapStrat(@)]
 
 \* entry-wise structural equality of two diffs (DiffEntry.__eq__)
 RECURSIVE EntryEq(_, _)
@@ -181,7 +204,7 @@ At(p, ds) == [j \in 1..Len(ds) |-> [ds[j] EXCEPT !.common_path = p \o @]]
 (* _split_addrange: both sides insert at key; align the inserted values    *)
 (* with the differ itself                                                  *)
 (***************************************************************************)
-SplitAddrange(key, lv, rv) ==
+SplitAddrange(key, lv, rv, is) ==
   LET idiff == ListDiff(lv, rv)
       n == Len(idiff)
       RECURSIVE Go(_, _, _)
@@ -203,8 +226,8 @@ SplitAddrange(key, lv, rv) ==
              THEN \* a dissimilar sub-sequence on both sides: conflicted insertion
                   LET len == idiff[i + 1].length IN
                   Go(i + 2, tk + len,
-                     Append(acc1, Conflict(<<AddRange(key, SubSeq(lv, d.key + 1, d.key + len))>>,
-                                           <<AddRange(key, d.valuelist.e)>>)))
+                     Append(acc1, ConflictS(<<AddRange(key, SubSeq(lv, d.key + 1, d.key + len))>>,
+                                            <<AddRange(key, d.valuelist.e)>>, is)))
              ELSE IF d.op = "removerange"
              THEN Go(i + 1, tk + d.length,
                      Append(acc1, Dec("local", FALSE, <<AddRange(key, SubSeq(lv, d.key + 1, d.key + d.length))>>, FALSE, <<>>, FALSE)))
@@ -214,24 +237,33 @@ SplitAddrange(key, lv, rv) ==
 
 HasConf(ds) == \E j \in 1..Len(ds) : ds[j].conflict
 
-MergeConcurrentInserts(ld, rd) ==
-  LET sub == SplitAddrange(ld[1].key, ld[1].valuelist.e, rd[1].valuelist.e)
+\* resolve_strategy_generic: use-* turns every conflicted decision not yet marked with an applied strategy
+GenericResolve(ds, s) ==
+  IF s \in UseS /\ HasConf(ds)
+  THEN [j \in 1..Len(ds) |-> IF ds[j].conflict /\ ds[j].strat = ""
+                              THEN [ds[j] EXCEPT !.action = SideOf(s), !.conflict = FALSE] ELSE ds[j]]
+  ELSE ds
+
+MergeConcurrentInserts(ld, rd, is) ==
+  LET sub == SplitAddrange(ld[1].key, ld[1].valuelist.e, rd[1].valuelist.e, is)
       tl == SubSeq(ld, 2, Len(ld))
       tr == SubSeq(rd, 2, Len(rd))
   IN IF HasConf(sub) /\ (Len(ld) = 2 \/ Len(rd) = 2)
-     THEN <<Conflict(ld, rd)>>
+     THEN <<ConflictS(ld, rd, is)>>
      ELSE IF Len(ld) = 2 /\ Len(rd) = 2 THEN Append(sub, Agreement(tl, tr))
      ELSE IF Len(ld) = 2 \/ Len(rd) = 2 THEN Append(sub, OneSided(tl, tr))
      ELSE sub
 
 (***************************************************************************)
-(* _merge_dicts for objects of atomic values (no strategies, no transients) *)
+(* _merge_dicts for objects of atomic values: ds the strategy of the dict,  *)
+(* ks the strategy of its keys, T the transient keys                       *)
 (***************************************************************************)
 EntryOf(d, k) == LET idx == {j \in 1..Len(d) : d[j].key = k} IN
                  IF idx = {} THEN <<>> ELSE <<d[CHOOSE j \in idx : TRUE]>>
 ObjEntryEq(e, f) == e.op = f.op /\ ("value" \in DOMAIN e => Eq(e.value, f.value))
-ObjDecisions(ld, rd) ==
-  LET One(k) ==          \* keys changed on exactly one side
+ObjDecisionsS(ld, rd, ds, ks, T) ==
+  LET Tr(e) == e.op # "patch" /\ e.key \in T       \* is_diff_all_transients([e]) for an entry on an atomic value
+      One(k) ==          \* keys changed on exactly one side
         LET l == EntryOf(ld, k) r == EntryOf(rd, k) IN
         IF Len(l) + Len(r) # 1 THEN <<>>
         ELSE IF Len(l) = 1 THEN <<Dec("local", FALSE, l, FALSE, <<>>, TRUE)>>
@@ -240,30 +272,46 @@ ObjDecisions(ld, rd) ==
         LET l == EntryOf(ld, k) r == EntryOf(rd, k) IN
         IF Len(l) = 0 \/ Len(r) = 0 THEN <<>>
         ELSE IF l[1].op = "remove" /\ r[1].op = "remove" THEN <<Agreement(l, r)>>
-        ELSE IF l[1].op = "remove" \/ r[1].op = "remove" THEN <<Conflict(l, r)>>
-        ELSE IF l[1].op # r[1].op THEN <<Conflict(l, r)>>
+        \* one side deletes, the other only changes transient data: the deletion is picked, no conflict
+        ELSE IF l[1].op = "remove" /\ Tr(r[1]) THEN <<Dec("local", FALSE, l, FALSE, r, FALSE)>>
+        ELSE IF r[1].op = "remove" /\ Tr(l[1]) THEN <<Dec("remote", FALSE, l, FALSE, r, FALSE)>>
+        ELSE IF l[1].op = "remove" \/ r[1].op = "remove" THEN <<ConflictS(l, r, ks)>>
+        ELSE IF l[1].op # r[1].op THEN <<ConflictS(l, r, ks)>>
         ELSE IF ObjEntryEq(l[1], r[1]) THEN <<Agreement(l, r)>>
-        ELSE <<Conflict(l, r)>>
-  IN FlatSeq([j \in 1..Len(KS) |-> One(KS[j])]) \o FlatSeq([j \in 1..Len(KS) |-> Two(KS[j])])
+        ELSE <<ConflictS(l, r, ks)>>
+      all == FlatSeq([j \in 1..Len(KS) |-> One(KS[j])]) \o FlatSeq([j \in 1..Len(KS) |-> Two(KS[j])])
+  \* resolve_conflicted_decisions_dict (record-conflict / inline-attachments are notebook strategies, not modelled;
+  \* mergetool and the empty strategy leave the conflicts open)
+  IN GenericResolve(all, ds)
+ObjDecisions(ld, rd) == ObjDecisionsS(ld, rd, "", "", {})
 
 (***************************************************************************)
 (* the chunk-type switch of _merge_lists (no strategies, no transients)    *)
 (***************************************************************************)
 \* P/P, P/R, R/P with or without prior insertions
-PatchArms(key, a0, p0, a1, p1) ==
-  LET pre == IF Len(a0) > 0 /\ Len(a1) > 0 THEN MergeConcurrentInserts(a0, a1)
+AllTransients(d, T) == \A j \in 1..Len(d) : d[j].kt = "s" /\ d[j].op # "patch" /\ d[j].key \in T
+PatchArms(key, a0, p0, a1, p1, s) ==
+  LET pre == IF Len(a0) > 0 /\ Len(a1) > 0 THEN MergeConcurrentInserts(a0, a1, s.i)
              ELSE IF Len(a0) > 0 \/ Len(a1) > 0 THEN <<OneSided(a0, a1)>> ELSE <<>>
       post == IF DiffEq(p0, p1) THEN <<Agreement(p0, p1)>>
               ELSE IF p0[1].op = "patch" /\ p1[1].op = "patch"
                    THEN IF Kind = "strings"
                         \* _merge -> _merge_strings re-entered for one line: the line is not merged character by
                         \* character but marked as conflicted (a decision on the path of the line)
-                        THEN At(ItemPath(key), <<Conflict(p0[1].diff, p1[1].diff)>>)
-                        ELSE At(ItemPath(key), ObjDecisions(p0[1].diff, p1[1].diff))     \* _merge(base[key], ...) -> _merge_dicts
-                   ELSE <<Conflict(p0, p1)>>                                        \* patch of an item the other side removes
+                        \* (the strategy of the STRING decides: strategies.get(star_path(path[:-1])))
+                        THEN At(ItemPath(key), <<ConflictS(p0[1].diff, p1[1].diff, s.l)>>)
+                        \* _merge(base[key], ...) -> _merge_dicts: the item's strategy "/*" is the strategy of that dict
+                        ELSE At(ItemPath(key), ObjDecisionsS(p0[1].diff, p1[1].diff, s.i, s.k, s.t))
+                   ELSE \* patch of an item the other side removes
+                        LET thediff == IF p0[1].op = "patch" THEN p0[1].diff ELSE p1[1].diff
+                            istr == AllTransients(thediff, s.t)
+                        IN IF p0[1].op = "removerange" /\ istr THEN <<Dec("local", FALSE, p0, FALSE, p1, FALSE)>>
+                           ELSE IF p1[1].op = "removerange" /\ istr THEN <<Dec("remote", FALSE, p0, FALSE, p1, FALSE)>>
+                           ELSE IF s.l \in UseS THEN <<Dec(SideOf(s.l), FALSE, p0, FALSE, p1, FALSE)>>
+                           ELSE <<ConflictS(p0, p1, s.i)>>
   IN pre \o post
 
-ChunkDecisions(c) ==
+ChunkDecisions(c, s) ==
   LET d0 == c.d0
       d1 == c.d1
       a0 == SelectSeq(d0, LAMBDA e : e.op = "addrange")
@@ -278,14 +326,16 @@ ChunkDecisions(c) ==
      ELSE IF Len(d0) = 0 \/ Len(d1) = 0 THEN <<OneSided(d0, d1)>>
      ELSE IF DiffEq(d0, d1) THEN <<Agreement(d0, d1)>>
      ELSE IF ct = "R/R" THEN <<[Conflict(d0, d1) EXCEPT !.action = "ERROR-R/R"]>>
-     ELSE IF pct \in {"P/P", "P/R", "R/P"} THEN PatchArms(c.j, a0, p0, a1, p1)
+     ELSE IF pct \in {"P/P", "P/R", "R/P"} THEN PatchArms(c.j, a0, p0, a1, p1, s)
      ELSE IF ct \in {"A/P", "A/R"}          \* insert before an item the other side patches / removes
-          THEN <<Dec("local_then_remote", TRUE, d0, FALSE, d1, FALSE)>>
+          THEN IF TryAction(s.i) # "" THEN <<Resolved(TryAction(s.i), d0, d1, s.i)>>
+               ELSE <<Dec("local_then_remote", TRUE, d0, FALSE, d1, FALSE)>>
      ELSE IF ct \in {"P/A", "R/A"}
-          THEN <<Dec("remote_then_local", TRUE, d0, FALSE, d1, FALSE)>>
-     ELSE IF ct \in {"A/AP", "AP/A"} THEN Append(MergeConcurrentInserts(a0, a1), OneSided(p0, p1))
+          THEN IF TryAction(s.i) # "" THEN <<Resolved(TryAction(s.i), d0, d1, s.i)>>
+               ELSE <<Dec("remote_then_local", TRUE, d0, FALSE, d1, FALSE)>>
+     ELSE IF ct \in {"A/AP", "AP/A"} THEN Append(MergeConcurrentInserts(a0, a1, s.i), OneSided(p0, p1))
      ELSE IF ct \in {"AR/R", "R/AR"} THEN <<OneSided(a0, a1), Agreement(p0, p1)>>
-     ELSE IF ct \in {"AR/A", "A/AR", "A/A", "AR/AR"} THEN MergeConcurrentInserts(d0, d1)
+     ELSE IF ct \in {"AR/A", "A/AR", "A/A", "AR/AR"} THEN MergeConcurrentInserts(d0, d1, s.i)
      ELSE <<[Conflict(d0, d1) EXCEPT !.action = "ERROR-unhandled"]>>
 
 \* MergeDecisionBuilder.validated: stable sort, item paths by ascending index, enclosing path last
@@ -293,10 +343,57 @@ Validated(n, ds) ==
   FlatSeq([k \in 1..n |-> SelectSeq(ds, LAMBDA x : Len(x.common_path) > 0 /\ x.common_path[1].i = k - 1)])
   \o SelectSeq(ds, LAMBDA x : Len(x.common_path) = 0)
 
-Decisions(b, ld, rd) ==
+\* strategies.combine_patches: one patch per key (recursively), stable sort by (key, not an insertion)
+RECURSIVE CombinePatches(_)
+CombinePatches(d) ==
+  LET n == Len(d)
+      Same(x, y) == x.kt = y.kt /\ x.key = y.key
+      FirstP(j) == \A g \in 1..(j - 1) : ~(d[g].op = "patch" /\ Same(d[g], d[j]))
+      RECURSIVE Coll(_, _)
+      Coll(j, g) == IF g > n THEN <<>>
+                    ELSE (IF d[g].op = "patch" /\ Same(d[g], d[j]) THEN d[g].diff ELSE <<>>) \o Coll(j, g + 1)
+      New(j) == IF d[j].op # "patch" THEN <<d[j]>>
+                ELSE IF FirstP(j) THEN <<[d[j] EXCEPT !.diff = CombinePatches(Coll(j, 1))]>> ELSE <<>>
+      flat == FlatSeq([j \in 1..n |-> New(j)])
+      Rank(e) == IF e.op = "addrange" THEN 0 ELSE 1
+      KIdx(k) == CHOOSE j \in 1..Len(KS) : KS[j] = k           \* string keys: the universe's keys in sorted order
+      Before(e, f) == IF e.kt = "s" THEN KIdx(e.key) < KIdx(f.key)
+                      ELSE e.key < f.key \/ (e.key = f.key /\ Rank(e) < Rank(f))      \* strictly smaller sort key
+      RECURSIVE Ins(_, _)
+      Ins(q, e) == IF Len(q) = 0 THEN <<e>>
+                   ELSE IF Before(e, q[Len(q)]) THEN Append(Ins(SubSeq(q, 1, Len(q) - 1), e), q[Len(q)])
+                   ELSE Append(q, e)
+      RECURSIVE Sort(_, _)
+      Sort(j, acc) == IF j > Len(flat) THEN acc ELSE Sort(j + 1, Ins(acc, flat[j]))
+  IN Sort(1, <<>>)
+
+\* strategy clear-all on a list: every decision is dropped, one custom decision removes the whole range; the diffs of
+\* the two sides are collected (collect_diffs: adjust_patch_level + combine_patches)
+ClearAllDecision(n, ds) ==
+  LET Lift(p, d) == IF Len(d) = 0 THEN <<>> ELSE PushPath(p, d)
+      L == CombinePatches(FlatSeq([j \in 1..Len(ds) |-> Lift(ds[j].common_path, ds[j].local_diff)]))
+      R == CombinePatches(FlatSeq([j \in 1..Len(ds) |-> Lift(ds[j].common_path, ds[j].remote_diff)]))
+  IN << [Dec("custom", FALSE, L, FALSE, R, FALSE) EXCEPT !.custom_diff = <<RemoveRange(0, n)>>, !.custom_null = FALSE,
+                                                         !.strat = "clear-all"] >>
+
+\* resolve_conflicted_decisions_list (inline-outputs / inline-cells / remove are notebook strategies, not modelled)
+ListResolve(n, ds, ls) ==
+  IF ls \in {"", "mergetool"} \/ ~HasConf(ds) THEN ds
+  ELSE IF ls = "union"
+       \* not applied to sub-decisions on objects (the items of the nested universe)
+       THEN [j \in 1..Len(ds) |-> IF ds[j].conflict /\ ~(Kind = "nested" /\ Len(ds[j].common_path) > 0)
+                                   THEN [ds[j] EXCEPT !.action = "local_then_remote", !.conflict = FALSE] ELSE ds[j]]
+  ELSE IF ls = "clear-all" THEN ClearAllDecision(n, ds)
+  ELSE GenericResolve(ds, ls)
+
+Decisions(b, ld, rd, s) ==
   LET cs == Chunks(Len(b), ld, rd)
-      raw == FlatSeq([i \in 1..Len(cs) |-> ChunkDecisions(cs[i])])
-  IN Validated(Len(b), [j \in 1..Len(raw) |-> PushOut(raw[j])])
+      raw == FlatSeq([i \in 1..Len(cs) |-> ChunkDecisions(cs[i], s)])
+      pushed == [j \in 1..Len(raw) |-> PushOut(raw[j])]
+      \* _merge_lists ends with the list's strategy; _merge_strings then applies the string's (the same path here);
+      \* decide_merge_with_diff finally applies the root strategy with resolve_strategy_generic
+      lr == ListResolve(Len(b), pushed, s.l)
+  IN Validated(Len(b), GenericResolve(GenericResolve(lr, s.l), s.l))
 
 (***************************************************************************)
 (* the state machine                                                       *)
@@ -309,7 +406,35 @@ IsSeq == IsLists \/ IsNested
 Doc(x) == IF IsStrings THEN Str(x) ELSE IF IsSeq THEN List(x) ELSE Obj(x)
 DocB == IF IsStrings THEN Str(FlatSeq(base)) ELSE Doc(base)
 DiffOf(x, y) == IF IsLists THEN ListDiff(x, y) ELSE ObjDiff(x, y, KS)
-DecisionsOf(b, ld, rd) == IF IsSeq THEN Decisions(b, ld, rd) ELSE ObjDecisions(ld, rd)
+\* objects: the root strategy is the dict's strategy (applied by _merge_dicts and again at the root)
+DecisionsOf(b, ld, rd, s) == IF IsSeq THEN Decisions(b, ld, rd, s)
+                             ELSE GenericResolve(ObjDecisionsS(ld, rd, s.l, s.k, s.t), s.l)
+
+(***************************************************************************)
+(* the strategy configurations explored (StratMode).  Only configurations  *)
+(* that make sense for the kind of document: list strategies on lists,     *)
+(* leaf strategies on the keys of objects, the transient keys of objects.  *)
+(* ("fail" raises by design; inline-*, record-conflict and remove on lists *)
+(* are notebook strategies outside this transcription.)                    *)
+(***************************************************************************)
+Cfg(l, i, k, t) == [l |-> l, i |-> i, k |-> k, t |-> t]
+StratU ==
+  IF StratMode = "none" THEN {NoStrat}
+  ELSE LET all == StratMode = "all" IN
+  CASE IsLists ->
+         {Cfg(l, i, "", {}) : l \in {"", "mergetool", "union", "clear-all"} \cup UseS,
+                               i \in IF all THEN {"", "union"} \cup UseS ELSE {"", "use-local"}}
+    [] IsStrings ->
+         {Cfg(l, "", "", {}) : l \in {"", "mergetool"} \cup UseS}
+    [] IsNested ->
+         {Cfg(l, i, k, t) : l \in IF all THEN {"", "union", "clear-all"} \cup UseS ELSE {"", "use-local", "clear-all"},
+                            i \in IF all THEN {"", "use-remote", "use-base"} ELSE {"", "use-remote"},
+                            k \in IF all THEN {"", "clear", "use-local"} ELSE {"", "clear"},
+                            t \in IF all THEN SUBSET {"a", "b"} ELSE {{}, {"b"}}}
+    [] OTHER ->
+         {Cfg(l, "", k, t) : l \in IF all THEN {"", "mergetool"} \cup UseS ELSE {"", "use-base", "use-remote"},
+                             k \in {"", "clear", "take-max", "remove"} \cup UseS,
+                             t \in IF all THEN SUBSET {"a", "b"} ELSE {{}, {"a"}}}
 
 Init == /\ CASE IsLists  -> /\ base \in ListU /\ local \in ListU /\ remote \in ListU
                             /\ ldv = ListDiff(base, local) /\ rdv = ListDiff(base, remote)
@@ -322,20 +447,41 @@ Init == /\ CASE IsLists  -> /\ base \in ListU /\ local \in ListU /\ remote \in L
              [] OTHER    -> /\ base \in ObjU /\ local \in ObjU /\ remote \in ObjU
                             /\ ldv = ObjDiff(base, local, KS) /\ rdv = ObjDiff(base, remote, KS)
         /\ D = <<>> /\ merged = Null /\ phase = "input"
+        /\ st \in StratU
 
 Decide == /\ phase = "input"
-          /\ LET ds == DecisionsOf(base, ldv, rdv)
+          /\ LET ds == DecisionsOf(base, ldv, rdv, st)
                  r  == ApplyDecisions(DocB, ds)
              IN D' = ds /\ merged' = (IF r.ok THEN r.v ELSE [t |-> "x"])
           /\ phase' = "merged"
-          /\ UNCHANGED <<base, local, remote, ldv, rdv>>
+          /\ UNCHANGED <<base, local, remote, ldv, rdv, st>>
 Next == Decide
 Spec == Init /\ [][Next]_vars
 
 Done == phase = "merged"
 LD == ldv
 RD == rdv
-Swapped == DecisionsOf(base, RD, LD)
+Swapped == DecisionsOf(base, RD, LD, SwapS(st))
+\* the decisions with the strategy on "/" left out (conflicts it would resolve stay open), and with no strategy at all
+\* (transients kept): what the strategy runs are compared with
+DOpen == DecisionsOf(base, LD, RD, [st EXCEPT !.l = ""])
+DPlain == DecisionsOf(base, LD, RD, [NoStrat EXCEPT !.t = st.t])
+\* take-max only makes sense on numbers (nbdime: max() of a string and a number raises TypeError)
+IsNatAtom(x) == x.t = "i"
+\* clear / take-max read the base value of the key: a key both sides ADD with different values has none (nbdime:
+\* KeyError; in notebooks these strategies sit on keys the format requires, which therefore exist in the base)
+AddAdd == \E key \in {"a", "b"} :
+             LET l == EntryOf(LD, key) r == EntryOf(RD, key) IN
+             Len(l) = 1 /\ Len(r) = 1 /\ l[1].op = "add" /\ r[1].op = "add" /\ ~ObjEntryEq(l[1], r[1])
+\* take-max reads the new value of both sides: a side that REMOVES the key has none (nbdime: KeyError 'value'; the
+\* one key with this strategy, nbformat_minor, is required by the notebook format)
+RemoveVsChange == \E key \in {"a", "b"} \ st.t :
+             LET l == EntryOf(LD, key) r == EntryOf(RD, key) IN
+             Len(l) = 1 /\ Len(r) = 1 /\ ((l[1].op = "remove") # (r[1].op = "remove"))
+Sane == /\ (~IsSeq /\ st.k = "take-max") => \A x \in {base, local, remote} : \A key \in DOMAIN x : IsNatAtom(x[key])
+        /\ (~IsSeq /\ st.k \in {"clear", "take-max"}) => ~AddAdd
+        /\ (~IsSeq /\ st.k = "take-max") => ~RemoveVsChange
+Union == st.l = "union" \/ st.i = "union"
 
 DiffsCorrect ==
   /\ WellFormed(DocB, LD) /\ Eq(Patch(DocB, LD), Doc(local))
@@ -347,18 +493,18 @@ ChunkShapes ==
       /\ (t0[2] = "R" /\ t1[2] = "R") => DiffEq(SelectSeq(c.d0, LAMBDA e : e.op # "addrange"),
                                                SelectSeq(c.d1, LAMBDA e : e.op # "addrange"))
 NoErrorArm == Done => \A j \in 1..Len(D) : D[j].action \notin {"ERROR-R/R", "ERROR-unhandled"}
-Applies == Done => merged.t = DocB.t
+Applies == (Done /\ Sane) => merged.t = DocB.t
 AllLocal  == Done => AllSideIs(DocB, D, "local", Doc(local))
 AllRemote == Done => AllSideIs(DocB, D, "remote", Doc(remote))
 \* nested: the diffs are inputs, so "unchanged" / "the same change" are read off the diffs
 Unchanged(x, d) == IF IsNested THEN Len(d) = 0 ELSE x = base
 SameChange == IF IsNested THEN DiffEq(LD, RD) ELSE local = remote
-Laws == Done =>
+Laws == (Done /\ Sane) =>
   /\ (Unchanged(local, LD) /\ Unchanged(remote, RD)) => Len(D) = 0
   /\ Unchanged(remote, RD) => (~HasConf(D) /\ Eq(merged, Doc(local)))
   /\ Unchanged(local, LD) => (~HasConf(D) /\ Eq(merged, Doc(remote)))
   /\ SameChange => (~HasConf(D) /\ Eq(merged, Doc(local)))
-Symmetric == Done =>
+Symmetric == (Done /\ Sane /\ ~Union) =>          \* union (local then remote) is side dependent by design
   \/ (IsSeq /\ SamePositionInsert(LD, RD))
   \/ /\ HasConf(D) = HasConf(Swapped)
      /\ (~HasConf(D) => LET r == ApplyDecisions(DocB, Swapped) IN r.ok /\ Eq(r.v, merged))
@@ -399,10 +545,48 @@ StrProvenanceModGlue == StrCase =>
      \/ \E u \in Unterminated, t \in InputLines : ln = u \o t
      \/ \E u \in Unterminated, v \in Unterminated, t \in InputLines : ln = u \o v \o t
 
+(***************************************************************************)
+(* strategies at design level (C10, and "under any strategy" of C05/C09)   *)
+(***************************************************************************)
+SameDecisions(X, Y) == Len(X) = Len(Y) /\ \A j \in 1..Len(X) :
+   /\ X[j].common_path = Y[j].common_path /\ X[j].action = Y[j].action /\ X[j].conflict = Y[j].conflict
+   /\ DiffEq(X[j].local_diff, Y[j].local_diff) /\ DiffEq(X[j].remote_diff, Y[j].remote_diff)
+\* C10: a use-* strategy on the document leaves nothing open ...
+UseSideResolved == (Done /\ Sane /\ st.l \in UseS) => ~HasConf(D)
+\* ... and gives what resolving every open conflict to that side gives
+\* (no second use-* strategy on the items: where the list's and the items' strategies name different sides the
+\* patch-versus-delete arm follows the list's, every other arm the items' - no command line produces that)
+UseSideEquiv == (Done /\ Sane /\ st.l \in UseS /\ st.i \notin UseS) =>
+  LET r == ApplyDecisions(DocB, ResolveAll(DOpen, SideOf(st.l))) IN r.ok /\ Eq(r.v, merged)
+\* a strategy acts on conflicts only: where the plain merge has none, the decisions are the plain ones
+StrategyInert == (Done /\ Sane /\ ~HasConf(DPlain)) => SameDecisions(D, DPlain)
+\* clear-all: nothing open; if anything was conflicted the list is emptied, and both sides stay recoverable (AllLocal)
+ClearAllClears == (Done /\ IsSeq /\ st.l = "clear-all") =>
+  /\ ~HasConf(D)
+  /\ HasConf(DOpen) => Eq(merged, Doc(<<>>))
+\* union on a list of atoms: nothing open, and every item either side inserted is in the result
+InsertedVals(d) == UNION {IF d[j].op = "addrange" THEN {d[j].valuelist.e[q] : q \in 1..Len(d[j].valuelist.e)} ELSE {}
+                          : j \in 1..Len(d)}
+UnionKeepsBoth == (Done /\ IsLists /\ st.l = "union" /\ st.i \in {"", "union"}) =>
+  /\ ~HasConf(D)
+  /\ merged.t = "l" /\ (InsertedVals(LD) \cup InsertedVals(RD)) \subseteq {merged.e[q] : q \in 1..Len(merged.e)}
+\* a deletion wins over a change of transient data, silently
+TransientYields == (Done /\ Sane /\ ~IsSeq) =>
+  \A key \in st.t :
+     LET l == EntryOf(LD, key) r == EntryOf(RD, key) IN
+     (Len(l) = 1 /\ Len(r) = 1 /\ ((l[1].op = "remove") # (r[1].op = "remove"))) =>
+        /\ merged.t = "o" /\ key \notin DOMAIN merged.m
+        /\ \A j \in 1..Len(D) : D[j].conflict => \A e \in {D[j].local_diff, D[j].remote_diff} :
+                                                  \A q \in 1..Len(e) : e[q].key # key
+
 DecJson(dd) == [common_path |-> dd.common_path, action |-> dd.action, conflict |-> dd.conflict,
                 local_diff |-> dd.local_diff, local_null |-> dd.local_null,
-                remote_diff |-> dd.remote_diff, remote_null |-> dd.remote_null]
-Emit == (EMIT /\ Done) =>
+                remote_diff |-> dd.remote_diff, remote_null |-> dd.remote_null,
+                custom_diff |-> dd.custom_diff, custom_null |-> dd.custom_null]
+SetSeq(S) == SelectSeq(KS, LAMBDA key : key \in S)
+\* with strategies only the cases a strategy can act on are printed (StrategyInert: elsewhere D is the plain D)
+Emit == (EMIT /\ Done /\ Sane /\ ((st.l = "" /\ st.i = "" /\ st.k = "") \/ HasConf(DPlain))) =>
   PrintT("MERGE " \o ToJson([base |-> DocB, local |-> Doc(local), remote |-> Doc(remote), ld |-> LD, rd |-> RD,
-                              D |-> [j \in 1..Len(D) |-> DecJson(D[j])], merged |-> merged]))
+                              D |-> [j \in 1..Len(D) |-> DecJson(D[j])], merged |-> merged,
+                              st |-> [l |-> st.l, i |-> st.i, k |-> st.k, t |-> SetSeq(st.t)]]))
 =============================================================================
